@@ -45,7 +45,12 @@ type Job struct {
 	AztecSym int    // > 0: render AztecSymbols[AztecSym-1] with NDamage data modules and one mode-message module flipped, decode with the worker's Aztec reader
 	NDamage  int    // number of flipped data modules (every one is a Reed-Solomon error the decoder has to correct)
 	Damage   uint64 // seed of the flipped positions
+	Charset  string // QR only: CHARACTER_SET hint for the writer (the symbol then carries an ECI designator and the reader
+	//                 uses that charset's decoder: several of them — UTF-16, ISO-2022 style — are stateful objects)
 }
+
+// QRCharsets: every kind of text decoder the ECI registry can select (single byte, multi-byte table driven, stateful).
+var QRCharsets = []string{"UTF-16BE", "UTF-8", "Shift_JIS", "ISO-8859-1", "ISO-8859-5", "windows-1252", "GB18030", "Big5", "EUC-KR", "US-ASCII", "Cp437"}
 
 // ---- EAN-2 / EAN-5 add-on symbols (ISO/IEC 15420, 4.3): start 1011, digits in set A (L) or B (G), separated by 01 ----
 var setA = []string{"0001101", "0011001", "0010011", "0111101", "0100011", "0110001", "0101111", "0111011", "0110111", "0001011"}
@@ -247,6 +252,12 @@ func Jobs(seed uint64, n int) []Job {
 		}
 		f := Formats[k]
 		j := Job{Format: f, Content: Content(r, f), Scale: 1 + r.intn(3), Photo: -1}
+		if f == gozxing.BarcodeFormat_QR_CODE && r.intn(2) == 0 {
+			j.Charset = QRCharsets[r.intn(len(QRCharsets))]
+			if j.Charset == "UTF-16BE" || r.intn(2) == 0 {
+				j.Content = from(r, "abcdefghijklmnopqrstuvwxyz ,.-", 3, 40) // byte mode, representable everywhere
+			}
+		}
 		if isUPCEAN(f) && r.intn(3) != 0 {
 			j.Addon = digits(r, []int{2, 5, 5}[r.intn(3)])
 		}
@@ -369,6 +380,9 @@ func (w *Worker) Run(j Job) (out string) {
 		hints = map[gozxing.EncodeHintType]interface{}{gozxing.EncodeHintType_DATA_MATRIX_SHAPE: dmencoder.SymbolShapeHint_FORCE_SQUARE}
 	case 2:
 		hints = map[gozxing.EncodeHintType]interface{}{gozxing.EncodeHintType_DATA_MATRIX_SHAPE: dmencoder.SymbolShapeHint_FORCE_RECTANGLE}
+	}
+	if j.Charset != "" {
+		hints = map[gozxing.EncodeHintType]interface{}{gozxing.EncodeHintType_CHARACTER_SET: j.Charset}
 	}
 	m, err := w.writers[j.Format].Encode(j.Content, j.Format, 0, height, hints)
 	if err != nil {
